@@ -21,7 +21,7 @@ def sweep(ctx):
 
 
 def run(ctx):
-    F.run_family_check(ctx, "C20", 110, 2000, want=("report", "stats"), extra_configs=sweep(ctx))
+    F.run_family_check(ctx, "C20", 200, 2000, want=("report", "stats"), extra_configs=sweep(ctx))
 
 
 replay = F.replay
